@@ -35,11 +35,11 @@ func (c *Ctx) applyFuncs(rule string) map[string]*ssa.Function {
 		return out
 	}
 	c.Analysed(apply)
-	tbl := c.caseTable(apply, nil, func(p string) bool { return p == "$1.Type" })
-	for k, blk := range tbl {
-		for _, cl := range callsIn(blk) {
-			if f := cl.Call.StaticCallee(); f != nil && inModule(f) {
-				out[unquote(k)] = f
+	dv := c.dispatch(apply, func(p string) bool { return p == "$1.Type" })
+	for k, a := range dv.arms {
+		for _, ac := range c.armCalls(dv, a) {
+			if inModule(ac.callee) {
+				out[unquote(k)] = ac.callee
 				break
 			}
 		}
@@ -118,6 +118,8 @@ type fieldStore struct {
 	Field string
 	Val   ssa.Value
 	Instr *ssa.Store
+	At    ssa.Instruction // where the store takes effect in the analysed function: the store itself, or the call of the constructor helper that performs it
+	Env   Env             // frame in which Val is to be rendered (helper parameters renamed to the caller's arguments)
 }
 
 // allocsOf returns allocations in f of struct type named (pointer allocations `&T{}` / new(T) / local T).
@@ -143,7 +145,7 @@ func storesInto(a *ssa.Alloc) []fieldStore {
 		}
 		for _, rr := range *fa.Referrers() {
 			if st, ok := rr.(*ssa.Store); ok && st.Addr == fa {
-				out = append(out, fieldStore{Field: fieldName(a.Type(), fa.Field), Val: st.Val, Instr: st})
+				out = append(out, fieldStore{Field: fieldName(a.Type(), fa.Field), Val: st.Val, Instr: st, At: st})
 			}
 		}
 	}
@@ -624,6 +626,11 @@ func (c *Ctx) constSetTests(g *ssa.Function, env Env, isX func(path string) bool
 			return c.mapLiteralKeys(m)
 		case *ssa.UnOp:
 			if gl, ok := m.X.(*ssa.Global); ok && m.Op == token.MUL {
+				if sl := c.globalSliceLiteral(gl); len(sl) > 0 {
+					ks := append([]string{}, sl...)
+					sort.Strings(ks)
+					return ks, true
+				}
 				var ks []string
 				for _, mu := range c.globalMapUpdates(gl) {
 					k, isK := mu.Key.(*ssa.Const)
@@ -702,6 +709,80 @@ func (c *Ctx) constSetTests(g *ssa.Function, env Env, isX func(path string) bool
 		t := eqGroups[v]
 		sort.Strings(t.set)
 		out = append(out, *t)
+	}
+	return out
+}
+
+// builtObj is a struct value built during a call of f: a local allocation, or the result of a module constructor
+// helper each of whose returns is an allocation it made itself (`return &T{...}` moved into a function).
+type builtObj struct {
+	v     ssa.Value // *ssa.Alloc or *ssa.Call; both are instructions of f
+	call  *ssa.Call
+	inner []*ssa.Alloc
+	env   Env
+}
+
+func (o *builtObj) instr() ssa.Instruction { return o.v.(ssa.Instruction) }
+
+// builtObjs lists the values of type *named built in f.
+func (c *Ctx) builtObjs(f *ssa.Function, named *types.Named) []*builtObj {
+	var out []*builtObj
+	for _, a := range allocsOf(f, named) {
+		out = append(out, &builtObj{v: a})
+	}
+	forEachInstr(f, func(in ssa.Instruction) {
+		cl, ok := in.(*ssa.Call)
+		if !ok {
+			return
+		}
+		g := cl.Call.StaticCallee()
+		if g == nil || !inModule(g) || g.Blocks == nil || g.Signature.Results().Len() != 1 {
+			return
+		}
+		pt, isP := g.Signature.Results().At(0).Type().(*types.Pointer)
+		if !isP || !types.Identical(pt.Elem(), named) {
+			return
+		}
+		var inner []*ssa.Alloc
+		for _, r := range returnsOf(g) {
+			a, isA := r.Results[0].(*ssa.Alloc)
+			if !isA || a.Parent() != g {
+				return
+			}
+			inner = append(inner, a)
+		}
+		if len(inner) == 0 {
+			return
+		}
+		c.Analysed(g)
+		out = append(out, &builtObj{v: cl, call: cl, inner: inner, env: c.calleeEnv(&cl.Call, g, nil)})
+	})
+	return out
+}
+
+// storesIntoObj: field stores into a built object — the literal / assignments in f, and for a helper-built object
+// the helper's own stores (taking effect at the call, values rendered in the caller's frame).
+func (c *Ctx) storesIntoObj(o *builtObj) []fieldStore {
+	var out []fieldStore
+	if a, ok := o.v.(*ssa.Alloc); ok {
+		return storesInto(a)
+	}
+	for _, a := range o.inner {
+		for _, fs := range storesInto(a) {
+			fs.At, fs.Env = o.call, o.env
+			out = append(out, fs)
+		}
+	}
+	for _, r := range *o.v.Referrers() {
+		fa, ok := r.(*ssa.FieldAddr)
+		if !ok {
+			continue
+		}
+		for _, rr := range *fa.Referrers() {
+			if st, ok := rr.(*ssa.Store); ok && st.Addr == ssa.Value(fa) {
+				out = append(out, fieldStore{Field: fieldName(o.v.Type(), fa.Field), Val: st.Val, Instr: st, At: st})
+			}
+		}
 	}
 	return out
 }
